@@ -1,5 +1,6 @@
 import Cbor.Gen.Unicode
 import Cbor.Spec.Utf8
+import Cbor.Lemmas.Tactics
 /-!
 The generated UTF-8 counting loop (`Gen._cbor_unicode_codepoint_count`, table `Gen.utf8d`) against the
 RFC 3629 grammar `Spec.Utf8`.
@@ -8,8 +9,9 @@ RFC 3629 grammar `Spec.Utf8`.
 2. the generated loop is a run of `delta` over the bytes (induction on the remaining length);
 3. runs of `delta` from the accept state count exactly the `UTF8-char`s of the grammar (induction on length).
 -/
+set_option linter.unusedSimpArgs false
 namespace Lemmas.Utf8
-open Gen Spec.Utf8
+open Gen Spec.Utf8 Lemmas
 
 /-- the readable automaton: state 0 = between characters, 1 = reject, 2/3 = one/two continuation bytes
 outstanding, 4/5 = after E0 / ED, 6/7/8 = after F0 / F1–F3 / F4 -/
@@ -52,16 +54,18 @@ theorem decode_step (st cp byte : UInt32) (hs : st.toNat < 9) (hb : byte.toNat <
     (_cbor_unicode_decode st cp byte).2.1 = (_cbor_unicode_decode st cp byte).1 ∧
     _cbor_unicode_decode.ok st cp byte = true := by
   have ht := table st.toNat hs byte.toNat hb
-  have hidx : ((256 : UInt32) + st * 16 + (utf8d byte.toNat).toUInt32).toNat = 256 + st.toNat * 16 + (utf8d byte.toNat).toNat := by
-    simp [UInt32.toNat_add, UInt32.toNat_mul]; omega
-  refine ⟨?_, rfl, ?_⟩
-  · simp only [_cbor_unicode_decode]
-    rw [hidx]; simpa using ht.2
-  · simp only [_cbor_unicode_decode.ok]
-    rw [hidx]
-    simp
-    refine ⟨⟨by omega, ?_⟩, by omega⟩
-    right; omega
+  have ht1 := ht.1
+  have ht2 := ht.2
+  -- independent of the spelling of the generated function (conditional expression or if/else for `*codep`, `utf8d[i]` or
+  -- `*(utf8d + i)`, explicit casts): every `if` is split, and the index expression, whatever its text, is pushed to `Nat`
+  -- where it denotes 256 + 16·state + class
+  unfold _cbor_unicode_decode _cbor_unicode_decode.ok
+  simp only []
+  repeat' split
+  all_goals (refine ⟨?_, ?_, ?_⟩)
+  all_goals (try rfl)
+  all_goals (simp [UInt32.toNat_add, UInt32.toNat_mul] <;> bits_to_arith)
+  all_goals (first | exact ht2 | (simpa using ht2) | (cnorm; omega))
 
 /-- a run of the automaton over a byte list, counting passages through the accept state -/
 def runD : List Nat → Nat → Nat → Option Nat
